@@ -356,4 +356,24 @@ watch:
 	for i := 0; i < len(docs); i += len(docs)/5 + 1 {
 		c.Sample("document", 5, map[string]interface{}{"kind": docs[i].kind, "doc": clip(docs[i].doc, 120)})
 	}
+
+	// ---- block-phase protocol (BlockPhase.tla) of a sample of the executions above and of
+	// the repository's own tests run with the tag on
+	bpCfgs := []mdConfig{{Ext: "core"}, {Ext: "all", AutoID: true, Attr: true}}
+	var bpDocs []string
+	for i := 0; i < len(docs); i += len(docs)/c.Pick(6000, 60000) + 1 {
+		if len(docs[i].doc) < 2000 {
+			bpDocs = append(bpDocs, docs[i].doc)
+		}
+	}
+	bps := recordParses(bpCfgs, bpDocs)
+	validateBlockPhase(c, "workload sample", bps, func(i int) string {
+		t := bps[i].T - 1 // parses are numbered in execution order: configuration-major
+		return fmt.Sprintf("config %s document %q", bpCfgs[t/len(bpDocs)], clip(bpDocs[t%len(bpDocs)], 200))
+	})
+	if tps, msg := repoTestTraces(); msg != "" {
+		c.Warn("BlockPhase/repo-tests-not-traced", msg)
+	} else {
+		validateBlockPhase(c, "repository tests with the tag on", tps, nil)
+	}
 }
